@@ -38,6 +38,9 @@ def scenario(rng, k, crash=None, git=False, dirty=False):
     steps.append({"cmd": "clean", "argv": ["clean", "-f"]})
     steps.append(G.run_step(rng, 300, target="//:d", again=False, p_fail=0.0))
     steps.append({"cmd": "restore", "argv": ["restore", "../A.tar.gz"], "archive": "../A.tar.gz", "if_exists": "../A.tar.gz"})
+    # the same restore once more (what a user does after an interrupted restore; after a complete one it must be refused)
+    steps.append({"cmd": "restore", "argv": ["restore", "../A.tar.gz"], "archive": "../A.tar.gz", "if_exists": "../A.tar.gz",
+                  "defect": "none", "label": "retry"})
     steps.append(G.run_step(rng, 400, again=False, p_fail=0.2))
     for st in steps:
         if st["cmd"] == "run":
@@ -83,7 +86,9 @@ def main(tier):
                 continue
             eff = st["effects"]
             pts = list(range(1, eff + 1))
-            if tier == "quick":
+            if tier == "quick" and not (k == 0 and st["cmd"] == "restore" and scn["steps"][si].get("label") != "retry"):
+                # (the first history's restore is killed at EVERY point also in the quick tier: it is followed by a retry, and
+                # what the retry makes of a half-copied directory depends on the exact file the kill fell on)
                 pts = sorted(rng.sample(pts, min(len(pts), 8)))
             for c in pts:
                 crash_scns.append(scenario(random.Random(seeds[k]), len(crash_scns), crash=(si, c), git=(k % 2 == 1),
